@@ -153,7 +153,7 @@ class BinningBase:
         rtol, atol : numpy tolerance parameters
         """
         return np.allclose(
-            np.diff(self.bins[1] - self.bins[0]), 0.0, rtol=rtol, atol=atol
+            np.diff(self.bins[:, 1] - self.bins[:, 0]), 0.0, rtol=rtol, atol=atol
         )
 
     def is_consecutive(self, rtol: float = 1.0e-5, atol: float = 1.0e-8) -> bool:
